@@ -531,9 +531,16 @@ impl Interp {
                 // only genuine Multiboot2 headers: with any other magic the
                 // crate's checksum arithmetic is outside its domain (a C10
                 // matter, not a heap-construction one)
-                let magic = 0xE852_50D6u32;
                 let arch: u32 = if f1 % 2 == 0 { 0 } else { 4 };
                 let len = (16 + content.len()) as u32;
+                // odd f0: a foreign magic, as long as it stays inside the
+                // domain of the crate's checksum arithmetic
+                let foreign = f0 as u32;
+                let magic = if f0 % 2 == 1 && foreign as u64 + arch as u64 + len as u64 <= 0x1_0000_0000 {
+                    foreign
+                } else {
+                    0xE852_50D6u32
+                };
                 let ck = 0u32.wrapping_sub(magic).wrapping_sub(arch).wrapping_sub(len);
                 let mut h = Vec::new();
                 for w in [magic, arch, len, ck] {
@@ -609,9 +616,40 @@ impl Interp {
                 return self.skip();
             }
         }
-        let slices: Vec<&[u8]> = op.b.iter().map(|v| v.as_slice()).collect();
+        // How the caller's slices lie in memory (a[5]): 0 separate buffers,
+        // 1 consecutive pieces of one buffer, 2 overlapping windows of one
+        // buffer, 3 the same slice passed repeatedly. `actual` is what each
+        // slice holds — the model is always their plain concatenation.
+        let flat: Vec<u8> = op.b.iter().flatten().copied().collect();
+        let alias = if kind == DstKind::Framebuffer { op.arg(5) % 2 } else { op.arg(5) % 4 };
+        let mut ranges: Vec<(usize, usize)> = Vec::with_capacity(op.b.len());
+        let mut cum = 0usize;
+        for v in &op.b {
+            let start = match alias {
+                2 => (cum * 2 / 3).min(flat.len() - v.len()),
+                3 => 0,
+                _ => cum,
+            };
+            let len = if alias == 3 { op.b[0].len() } else { v.len() };
+            ranges.push((start, len));
+            cum += v.len();
+        }
+        let slices: Vec<&[u8]> = if alias == 0 {
+            op.b.iter().map(|v| v.as_slice()).collect()
+        } else {
+            ranges.iter().map(|&(s0, l)| &flat[s0..s0 + l]).collect()
+        };
+        let actual: Vec<Vec<u8>> = slices.iter().map(|s| s.to_vec()).collect();
+        let total_content: usize = actual.iter().map(|s| s.len()).sum();
+        if alias != 0 {
+            self.probes.hit(match alias {
+                1 => "new_boxed_slices_adjacent_in_one_buffer",
+                2 => "new_boxed_slices_overlapping",
+                _ => "new_boxed_same_slice_repeated",
+            });
+        }
         let precondition_broken = !kind.content_ok(total_content);
-        let model = boxed_model(kind, typ, aux, &op.b);
+        let model = boxed_model(kind, typ, aux, &actual);
         let r = self.call(|| make_dst(kind, typ, aux, garbage, &slices));
         // probes
         self.probes.hit(&format!("new_boxed/{}/residue{}", kind.name(), (8 + total_content) % 8));
@@ -851,7 +889,8 @@ impl Interp {
     // -- C06 -----------------------------------------------------------------
 
     fn op_mbi_new(&mut self, op: &Op) {
-        let b = mb::Builder::new();
+        // both ways of obtaining an empty builder
+        let b = if op.arg(1) % 2 == 1 { mb::Builder::default() } else { mb::Builder::new() };
         self.put(op.arg(0), Obj::Mbi { b: Some(b), model: BuilderModel::default() });
         self.note(&[20], &[]);
     }
@@ -1331,8 +1370,12 @@ fn raw_walk(img: &[u8], start: usize) -> Result<Vec<Vec<u8>>, String> {
 /// `new_boxed` with content its kind's `dst_len` rejects panics *after* the
 /// allocation and leaks the block (DESIGN §3.6 note 4).
 pub fn leaks_by_contract(op: &Op) -> bool {
-    op.kind == OpKind::NewBoxed
-        && DstKind::from_u64(op.arg(1)).map_or(false, |k| !k.content_ok(op.b.iter().map(|s| s.len()).sum()))
+    let total: usize = if op.arg(5) % 4 == 3 && op.arg(1) != DstKind::Framebuffer as u64 {
+        op.b.first().map_or(0, |s| s.len()) * op.b.len() // the same slice repeated
+    } else {
+        op.b.iter().map(|s| s.len()).sum()
+    };
+    op.kind == OpKind::NewBoxed && DstKind::from_u64(op.arg(1)).map_or(false, |k| !k.content_ok(total))
 }
 
 /// Executes a trace under its allocator script. One call = one simulated run.
